@@ -868,9 +868,12 @@ func concCase(rng *hutil.Rng, n int) *c14case {
 		if rng.Chance(1, 3) {
 			c = 2 + rng.Intn(2)
 		}
-		burst := rng.Chance(1, 6)
+		burst := rng.Chance(1, 6) || i == 0
 		if burst {
 			c = 6
+			if i == 0 {
+				c = 16
+			}
 		}
 		p := plan{copies: c}
 		for j := 0; j < c; j++ {
@@ -1122,7 +1125,8 @@ func batchCase(rng *hutil.Rng, n int) *c14case {
 		time.Sleep(50 * time.Millisecond)
 	}
 	// one-way waiters time out inside the client: wait until the table drains
-	for steps <= maxSteps && pendingFutures() > 0 {
+	// (they were sent at most a few seconds after the callers that have just returned)
+	for drain := 0; drain < 450 && steps <= maxSteps && pendingFutures() > 0; drain++ {
 		steps += 2
 		time.Sleep(100 * time.Millisecond)
 	}
